@@ -4,6 +4,7 @@ M_hash) and the observation points of the World-level oracles."""
 import fnmatch
 import json
 import os
+import re
 import shutil
 
 from . import fsx
@@ -172,6 +173,9 @@ class World:
     def flag(self, prop, rule, detail, **facets):
         if prop in self.props and self.pending_violation is None:
             detail = detail.replace(self.base, "$BASE")  # the scratch path contains the worker's pid
+            # (also where an excerpt of gwf's output cut the path in two, and gwf's own wall-clock timings)
+            detail = re.sub(r"gwfsim-\d{7}", "gwfsim-PID", detail)
+            detail = re.sub(r"\b\d+(\.\d+)?\s?ms\b", "N ms", detail)
             facets.setdefault("backend", self.backend)
             if self.local is not None and self.local.generation > 1:
                 facets.setdefault("pool_restarted", True)
